@@ -79,9 +79,11 @@ package parser
 
 //@ func (*PacketDslVisitorImpl).metaDataDeclarationToMetaData
 //@   ensures typeis(result, model.MetaData) && model.metaAttr(unbox(result, model.MetaData).Attr)
+//@   ensures len(self.BinModel.SyntaxErrors) >= old(len(self.BinModel.SyntaxErrors))
 
 //@ func (*PacketDslVisitorImpl).VisitRefMetaDataDeclaration
 //@   ensures typeis(result, model.MetaData) && (unbox(result, model.MetaData).Attr == nil || model.metaAttr(unbox(result, model.MetaData).Attr))
+//@   ensures len(self.BinModel.SyntaxErrors) >= old(len(self.BinModel.SyntaxErrors))
 
 //@ func (*PacketDslVisitorImpl).VisitPacket
 //@   modifies-fresh object(v.BinModel), object(v.BinModel.MetaDataMap), object(v.BinModel.Options), object(v.BinModel.PacketsMap)
@@ -92,6 +94,14 @@ package parser
 //@   loop 0 invariant model.metaWF(v.BinModel)
 //@   loop 1 invariant model.metaWF(v.BinModel)
 //@   loop 4 invariant model.packetsNonNil(v.BinModel)
+//@   ensures [C12:D9-packets-submitted] len(self.BinModel.SyntaxErrors) == old(len(self.BinModel.SyntaxErrors)) ==> len(self.BinModel.Packets) == nall(ctx, packetDefinition)
+//@   ensures [C12:D9-packet-names-distinct] len(self.BinModel.SyntaxErrors) == old(len(self.BinModel.SyntaxErrors)) ==> forall(i, 0, len(self.BinModel.Packets), forall(j, 0, i, self.BinModel.Packets[i].Name != self.BinModel.Packets[j].Name))
+//@   loop 0 invariant len(self.BinModel.SyntaxErrors) >= old(len(self.BinModel.SyntaxErrors))
+//@   loop 1 invariant len(self.BinModel.SyntaxErrors) >= old(len(self.BinModel.SyntaxErrors))
+//@   loop 2 invariant len(self.BinModel.SyntaxErrors) >= old(len(self.BinModel.SyntaxErrors))
+//@   loop 3 invariant len(self.BinModel.SyntaxErrors) >= old(len(self.BinModel.SyntaxErrors))
+//@   loop 4 invariant len(self.BinModel.SyntaxErrors) >= old(len(self.BinModel.SyntaxErrors))
+//@   loop 4 invariant len(self.BinModel.SyntaxErrors) == old(len(self.BinModel.SyntaxErrors)) ==> len(self.BinModel.Packets) == rangeindex + 1 && forall(i, 0, len(self.BinModel.Packets), haskey(self.BinModel.PacketsMap, self.BinModel.Packets[i].Name)) && forall(i, 0, len(self.BinModel.Packets), forall(j, 0, i, self.BinModel.Packets[i].Name != self.BinModel.Packets[j].Name))
 
 //@ pred lengthOK(lf *model.Field) := lf != nil ==> (fieldOK(lf) && typeis(lf.Attr, *model.LengthFieldAttribute))
 //@ pred unresolvedRef(f *model.Field) := typeis(f.Attr, *model.ObjectFieldAttribute) && !unbox(f.Attr, *model.ObjectFieldAttribute).IsIner ==> unbox(f.Attr, *model.ObjectFieldAttribute).RefPacket == nil
